@@ -76,9 +76,11 @@ func ZZ_C15_select() {
 		c.Nodes = append(c.Nodes, node)
 		// the daemon pod currently on the node, with its restart history
 		c.Pods = append(c.Pods, &corev1.Pod{
-			ObjectMeta: metav1.ObjectMeta{Name: "pod-" + l, Namespace: "ns", Labels: map[string]string{datadoghqv1alpha1.ExtendedDaemonSetNameLabelKey: "foo"}},
-			Spec:       corev1.PodSpec{NodeName: l},
-			Status:     corev1.PodStatus{ContainerStatuses: []corev1.ContainerStatus{{Name: "agent", RestartCount: n.restarts}}},
+			// (the daemon pods still belong to an earlier replica set: the previous rollout had not reached them)
+			ObjectMeta: metav1.ObjectMeta{Name: "pod-" + l, Namespace: "ns", Labels: map[string]string{datadoghqv1alpha1.ExtendedDaemonSetNameLabelKey: "foo",
+				datadoghqv1alpha1.ExtendedDaemonSetReplicaSetNameLabelKey: "foo-earlier"}},
+			Spec:   corev1.PodSpec{NodeName: l},
+			Status: corev1.PodStatus{ContainerStatuses: []corev1.ContainerStatus{{Name: "agent", RestartCount: n.restarts}}},
 		})
 		nodes[i] = n
 	}
